@@ -179,7 +179,12 @@ def gen_cases(ctx):
             n = int(rng.choice([1, 2, 3, 5]))
             cont = dict(containers[(j + int(rng.integers(len(containers)))) % len(containers)])
             if cont.get("batch") == "b":
-                cont["batch"] = int(rng.integers(1, n + 2))
+                # favour several batches of >= 2 samples (+ remainder): where a wrong un-batching order shows
+                if rng.random() < 0.7:
+                    n = int(rng.choice([3, 4, 5]))
+                    cont["batch"] = int(rng.integers(2, n))
+                else:
+                    cont["batch"] = int(rng.integers(1, n + 2))
             cases.append({"method": name, "kind": kind, "shape": list(shape), "N": n, "container": cont,
                           "check_call": bool(j % 3 == 0), "case_seed": int(rng.integers(1 << 31))})
     # every method sees the known-finding container at least once in thorough runs only (slow: it raises / reshapes)
